@@ -90,7 +90,7 @@ Proof. unfold resume_r. destruct (_ || _); [apply keeps_refl|]. apply keeps_modc
 Section WB.
 Variable bname : bytes.
 Variable store : ident -> lookup.
-Notation Good := (Good store false).
+Notation Good := (Good (srow store) false).
 Notation pp := (pp store false).
 Notation handle := (handle store false).
 Notation step := (step bname store false).
